@@ -108,6 +108,9 @@ def main(tier):
         except Exception:
             pass
     texts += special_docs() * 3
+    import c01
+    bp = c01.block_pairs(False, random.Random(sd))
+    texts += [("block_set", t) for nm, t in (bp if thorough else bp[sd % 5::5])]
     import fixtures, os
     fx = fixtures.fixture_files()
     if not thorough:
@@ -131,6 +134,15 @@ def main(tier):
     step = 16
     for g in range(0, len(cases), step):
         groups.append({"id": "g%d" % g, "cases": [dict(c, reps=1) for c in cases[g:g + step]], "reps": 6 if thorough else 3})
+    # the same projects with the same options give the same result whatever options OTHER projects of the process were
+    # given: one option value handed to every project of a group, the last project adds a second option of its own
+    plain = [c for c in cases if not c.get("mem") and not c.get("default_opts")]
+    for g in range(0, min(len(plain), 96 if thorough else 32), 8):
+        cs = [dict(c, reps=1, id="so" + c["id"], shared_ban=True) for c in plain[g:g + 8]]
+        if len(cs) < 2:
+            continue
+        cs[-1]["banned2"] = ["GET", "POST", "PUT", "PATCH", "DELETE", "URL", "TYPE", "INFO", "SERVER", "TAG", "ENUM", "MACRO"]
+        groups.append({"id": "gs%d" % g, "cases": cs, "reps": 3, "shared_ban": ["INCLUDE"]})
     obs4 = harness("conc", groups)
     # the result of a project does not depend on which OTHER project of the same directory was processed before it in
     # this process (shared include chains of depth 2, fault in the deepest file; both kinds of diagnostics)
@@ -210,6 +222,8 @@ def main(tier):
                 what = "example-only"
             sig = {"kind": "concurrent", "msg": ((dd.get("solo_err") or {}).get("msg") or "")[:60], "what": what, "detail": ""}
             cidx = dd.get("case", "")
+            if cidx.startswith("so"):
+                cidx = cidx[2:]
             if cidx.startswith("d") and cidx[1:].isdigit() and int(cidx[1:]) < len(texts):
                 sig["detail"] = undefined_choice([(dd.get("solo_err") or {}).get("msg") or "", (dd.get("conc_err") or {}).get("msg") or ""],
                                                  texts[int(cidx[1:])][1])
